@@ -76,13 +76,13 @@ func drawC03a(t *rapid.T) *c03aScenario {
 }
 
 type c03Claim struct {
-	name     string
-	pool     int
-	api      string // present | deleting | gone
-	drifted  bool
-	marked   bool // cluster.MarkForDeletion issued by the disruption queue and not rolled back
-	cleaned  bool // the informer delivered the deletion
-	seen     string // last API state the informer delivered
+	name    string
+	pool    int
+	api     string // present | deleting | gone
+	drifted bool
+	marked  bool   // cluster.MarkForDeletion issued by the disruption queue and not rolled back
+	cleaned bool   // the informer delivered the deletion
+	seen    string // last API state the informer delivered
 }
 
 type c03Recon struct {
